@@ -161,6 +161,29 @@ Definition spec_total (o : option xobs) (same : bool) : list tok :=
   | Some x => check (nonzero (o_tid x) && nonzero (o_sid x)) "extract_total:zero_ids_installed"
   end.
 
+(* Where the ids stand in a header, by the documented grammars and nothing else: the trace id is what precedes
+   the first separator, the span id what lies between the first and the second separator (or the end). *)
+Definition field1 (sep : byte) (h : bytes) : bytes * bytes :=
+  match cut sep h with Some (a, r) => (a, r) | None => (h, []) end.
+Definition id_fields (sep : byte) (h : bytes) : bytes * bytes :=
+  match field1 sep h with (t, r) => (t, fst (field1 sep r)) end.
+(* the id fields the B3 extractor must read: those of a non-empty b3 header, else X-B3-TraceId / X-B3-SpanId *)
+Definition b3_id_fields (b3 xt xs : bytes) : bytes * bytes := if is_nil b3 then (xt, xs) else id_fields dash b3.
+
+(* "installs a context": whenever a context is installed, its trace id and span id are exactly the left-zero-padded
+   hexadecimal values of the header's id fields; so an id field that is empty, not hexadecimal or longer than
+   32 / 16 digits never leads to an installed context *)
+Definition spec_ids_from (tf sf : bytes) (o : option xobs) : list tok :=
+  match o with
+  | None => []
+  | Some x =>
+      if Nat.ltb 32 (length tf) || Nat.ltb 16 (length sf) then fail "extract:overlong_id_installed"
+      else check (match decode_id 16 tf, decode_id 8 sf with
+                  | Some a, Some b => bytes_eqb (o_tid x) a && bytes_eqb (o_sid x) b
+                  | _, _ => false
+                  end) "extract:ids_not_from_header"
+  end.
+
 (* "Extraction accepts the documented variants ..." *)
 Definition spec_accepts (nm : string) (doc : option (bytes * bytes * bool * string)) (o : option xobs) : list tok :=
   match doc with
@@ -176,9 +199,13 @@ Definition spec_accepts (nm : string) (doc : option (bytes * bytes * bool * stri
   end.
 
 Definition spec_b3_extract (b3 xt xs xf : bytes) (o : option xobs) (same : bool) : list tok :=
-  spec_total o same ++ spec_accepts "b3" (doc_b3 b3 xt xs xf) o.
+  spec_total o same ++
+  (match b3_id_fields b3 xt xs with (tf, sf) => spec_ids_from tf sf o end) ++
+  spec_accepts "b3" (doc_b3 b3 xt xs xf) o.
 Definition spec_jaeger_extract (h : bytes) (o : option xobs) (same : bool) : list tok :=
-  spec_total o same ++ spec_accepts "jaeger" (doc_jaeger h) o.
+  spec_total o same ++
+  (match id_fields colon h with (tf, sf) => spec_ids_from tf sf o end) ++
+  spec_accepts "jaeger" (doc_jaeger h) o.
 
 (* "For every valid span context, injecting ... and extracting the result yields a remote context with the
    same trace id and span id and the same sampled decision, whatever other flag bits the context carries" *)
